@@ -74,13 +74,13 @@ def gen_level_tables(rng, depth, dirty):
                 if k in "RP":
                     segs = [lit(fresh(strict=True) + "/")]
                 elif k == 'A':
-                    segs = [lit(fresh(strict=True)), ('E', rng.choice([1, 2, 3])), lit("/")]
+                    segs = [lit(fresh(strict=True)), ('E', rng.choice([1, 2, 2, 3, 3, 3, 11, 12] if lv == 0 else [1, 2, 3])), lit("/")]
                 else:
                     segs = []
                     for ci in range(rng.choice([2, 2, 3])):
                         segs.append(lit(fresh(strict=(ci == 0))))
                         if rng.random() < 0.5:
-                            segs.append(('E', rng.choice([1, 2, 3])))
+                            segs.append(('E', rng.choice([1, 2, 3, 11] if lv == 1 else [1, 2, 3])))
                         segs.append(lit("/"))
                     segs = merge(segs)
                 t.append(pc.mk_port(segs, b"", en_meta(), tables[lv + 1], kind=k))
@@ -88,6 +88,10 @@ def gen_level_tables(rng, depth, dirty):
             t.append(pc.mk_port([lit("self")], b":", en_meta(), None, kind='S'))
         if rng.random() < 0.5:
             t.append(pc.mk_port([lit(fresh())], b"::i", pc.render_meta([(b"parameter", None)]), None, kind='V'))
+        if rng.random() < 0.3:
+            # a leaf with two enumerations, one of them with two-digit indices
+            t.append(pc.mk_port([lit(fresh()), ('E', rng.choice([2, 3])), lit("/" + fresh()), ('E', rng.choice([2, 11]))],
+                                rng.choice([b"", b"::i"]), None, None, kind='L'))
         for _ in range(rng.choice([0, 1, 1, 2, 3])):
             segs = []
             for ci in range(rng.choice([1, 1, 1, 2])):
@@ -95,7 +99,7 @@ def gen_level_tables(rng, depth, dirty):
                     segs.append(lit("/"))
                 segs.append(lit(fresh()))
                 if rng.random() < 0.4:
-                    segs.append(('E', rng.choice([1, 2, 3, 11])))
+                    segs.append(('E', rng.choice([1, 2, 3, 11] if lv == 1 else [1, 2, 3])))
                     if rng.random() < 0.3:
                         segs.append(lit(rng.choice("xyz")))
             t.append(pc.mk_port(merge(segs), rng.choice([b"", b"", b":i", b"::i", b":", b":T:F", b":s:i"]),
@@ -222,6 +226,9 @@ def gen(rng, tier, dist):
         t = tabs[0]
         et, ek = pc.enc_tree(t), kinds_of(t)
         bump(dist, "depth-%d" % depth)
+        flat = [p for tb in tabs for p in tb]
+        bump(dist, "trees-with-subtree-N>=11", 1 if any(p['sub'] is not None and any(k == 'E' and v >= 11 for k, v in p['segs']) for p in flat) else 0)
+        bump(dist, "trees-with-leaf-two-hash", 1 if any(p['sub'] is None and pc.n_hash(p['segs']) >= 2 for p in flat) else 0)
         tables = all_tables(t)
         keys = sorted({k for _, _, k in tables})
         tab_of_key = {}
@@ -312,6 +319,18 @@ def spec_check(case, impl):
         for (i, a), r in zip(got, d):
             if canon_ids(t, r) != i:
                 return "dispatch: %r was reported for port %s, sent as a message it reached %s" % (a, i, r)
+        # with a location buffer: the same single port, it sees the full address in d.loc,
+        # matches = 1, loc back to "/" afterwards
+        dl = m["dl"].split(";") if m["dl"] != "-" else []
+        for (i, a), r in zip(got, dl):
+            rel = b"/" + a[len(pre):]
+            want_dl = "%s@%s#1#%s" % (i, hx(rel), hx(b"/"))
+            hit, cnt, after = r.split("#")
+            hid = hit.split("@")[0]
+            got_dl = "%s@%s#%s#%s" % (canon_ids(t, hid), hit.split("@")[1] if "@" in hit else "", cnt, after)
+            if got_dl != want_dl:
+                return ("dispatch-loc: %r reported for port %s; with a location buffer the dispatch gave %s "
+                        "(port@loc#matches#loc-after), expected %s" % (a, i, r, want_dl))
     return None
 
 def canon_id(t, ids):
@@ -362,10 +381,10 @@ def classify(case, impl, failure):
 TECHNIQUE = ("Coq proofs (structural induction over the port tree and the segments of each name) about a model of walk_ports / "
              "walk_ports_recurse0 / bundle_foreach with a pruning oracle + differential correspondence against the real "
              "walk_ports over macro-generated callbacks, with the real dispatch of every reported address")
-LEVEL_TEXT = ("For every tree, every pruning oracle and every initial buffer the walk leaves the buffer holding the string it "
-              "started with ('/' for an empty one) (C09_buffer_restored); for every '#'-free tree the reported (port, address) "
-              "list is exactly the Spec's enumeration, each leaf once, in table order (C09_enumerates_partial); pruning by NULL "
-              "object / 'enabled by' as coded (C09_pruning, C09_self_disabled). Enumeration with '#N' and the dispatch of every "
-              "reported address are computed for examples in Coq and otherwise decided by the tie and the Spec oracle on every run.")
+LEVEL_TEXT = ("For every well-formed tree ('#N' at any level, leaf names with several '#') the reported (port, address) list is exactly "
+              "the Spec's enumeration (C09_enumerates); the buffer is restored for every tree, oracle and initial content "
+              "(C09_buffer_restored); pruning by NULL object / 'enabled by' per expansion (C09_pruning, C09_pruning_enumerated, "
+              "C09_self_disabled); every reported address is dispatched to the reported port, with and without a location buffer, "
+              "for names of the macro shape and pairwise non-overlapping siblings (C09_dispatchable = C09_enumerates + C05 + C04).")
 LEVEL_NOTE = ("Trusted: Coq kernel, extraction, OCaml driver, harness, generator. The C++ code is modelled by hand "
               "(coq/Ports/WalkModel.v) and related to the model only by the correspondence run.")
